@@ -12,6 +12,10 @@ CLAIMED = {
   "text": "Bounded symbolic model checking of the EVM word opcodes through the real EVMInterpreter.Run: for every 256-bit operand tuple the returned word equals the Yellow-Paper definition written as one SMT bit-vector operation; memory, stack-manipulation, jump-validity, calldata and return-data selection are checked against in-harness reference models for all offsets/sizes within the stated small ranges.",
   "note": "Trusted: gosym and its models, z3; holiman/uint256 multiply/divide/exp kernels (a module dependency) replaced by exact semantics, so for those opcodes what is decided is the glue in instructions.go (operand order, zero cases). Every Proposal fork active (height 2^40, mainnet config).",
  },
+ "C17": {
+  "text": "Bounded symbolic model checking of the real TxPool (AddTransaction/add, PackForCast/checkNonce with Transactions.Less, MarkExecuted, UnMarkExecuted, IsExisted, GetTransaction, simpleContainer) against an in-harness reference model: for every history within the bound and every nonce assignment, an executed transaction is neither accepted nor packed again, a reorged block's transactions are pending and packable again, a packed batch has no duplicates, respects the limit, keeps a sender's nonce-checked transactions in ascending order and contains none ahead of the sender's next expected nonce.",
+  "note": "Trusted: gosym and its models, z3. Sequential histories only: the concurrency clause of the property (race freedom under parallel use) is outside what a single-goroutine symbolic execution decides and is not claimed.",
+ },
  "C18": {
   "text": "Bounded symbolic model checking of the real utility.StrToBigInt / BigIntToStr / FormatDecimalForERC20 / FormatDecimalForRocket: for every integer below 2^256 and every decimal string within the stated digit counts the solver shows exact conversion (no binary rounding), with big.Float rounding modelled by the error bound of the precision and mode the code actually passes.",
   "note": "Trusted: gosym, z3, the interval model of math/big.Float rounding (over-approximation: unsat is sound; sat is replayed against the real library, several models are tried). A change that is wrong only on inputs the interval model cannot pin down may surface as INCONCLUSIVE instead of VIOLATION.",
